@@ -18,7 +18,7 @@ ASSUMPTIONS = [
 ]
 SUBS = [
     dict(name="drbg", fork=True, quick=dict(cases=300, shards=13), thorough=dict(cases=2500, shards=13)),
-    dict(name="osread", quick=dict(cases=200000, shards=3), thorough=dict(cases=2000000, shards=3)),
+    dict(name="osread", quick=dict(cases=150000, shards=3), thorough=dict(cases=1500000, shards=3)),
 ]
 
 LIBSRC = {"crypto_entropy.c", "sha256.c", "sha256_shani.c", "sha256_sse2.c", "cpusupport_x86_shani.c", "cpusupport_x86_sse2.c",
